@@ -48,7 +48,11 @@ def fill(template, rng, nums, strs):
     lines = []
     for l in template:
         while "{n}" in l:
-            l = l.replace("{n}", gen.render(rng.choice(nums)), 1)
+            # an operand of a comparison does not start with a sign or NOT: how the tool groups -X=1 and NOT X=1 is C01's
+            # subject (and its recorded findings), not this property's
+            after = l[l.index("{n}") + 3:l.index("{n}") + 4]
+            pool = [t for t in nums if t[0] not in ("-", "NOT")] if after in ("=", ">", "<", "+") else nums
+            l = l.replace("{n}", gen.render(rng.choice(pool)), 1)
         while "{s}" in l:
             l = l.replace("{s}", gen.render(rng.choice(strs)), 1)
         lines.append(l)
@@ -86,8 +90,8 @@ def main():
     rng = random.Random(common.seed())
     wd = common.workdir(PID)
     thorough = T == "thorough"
-    nums = gen.gen_exprs(rep, wd, "n", Grammar='"num"', MaxOps="3" if thorough else "2", MaxLen="14", NumLeaves='{"A", "2"}',
-                         Arith='{"+"}', Logic="{}", WithNot="FALSE", WithNeg="FALSE", WithParen="FALSE",
+    nums = gen.gen_exprs(rep, wd, "n", Grammar='"num"', MaxOps="3", MaxLen="14", NumLeaves='{"A", "2"}',
+                         Arith='{"+"}', Logic="{}", WithNot="TRUE", WithNeg="TRUE", WithParen="TRUE",
                          NumFun1='{"ABS", "INT", "BUTTON", "JOYSTK"}', StrLeaves='{"A$", "S:AB"}',
                          StrToNum='{"LEN", "VAL"}', NumToStr='{"STR$", "HEX$"}', Str2='{"LEFT$"}', Str3="{}",
                          WithInstr="TRUE", WithStringS="TRUE", WithInkey="TRUE")
